@@ -127,12 +127,12 @@ theorem indexOf_min_eq_argminFirst {d : List K} {m : K} (h : IsMinOpt (some m) d
 
 theorem eraseSet_eq_mergeAt : ∀ (i : Nat) (bins : List (K × K)) (v1 f1 v2 f2 : K),
     bins[i]? = some (v1, f1) → bins[i + 1]? = some (v2, f2) →
-    (bins.eraseIdx (i + 1)).set i (Gen.DistogramExpr.trimCentre v1 f1 v2 f2, Gen.DistogramExpr.trimCount v1 f1 v2 f2)
+    (bins.eraseIdx (i + 1)).set i (centroid v1 f1 v2 f2, Gen.DistogramExpr.trimCount v1 f1 v2 f2)
       = mergeAt i bins
   | 0, a :: b :: rest, v1, f1, v2, f2, h1, h2 => by
     simp only [List.getElem?_cons_zero, Option.some.injEq, List.getElem?_cons_succ] at h1 h2
     subst h1; subst h2
-    simp [mergeAt, centroid]
+    simp [mergeAt]
   | 0, [], _, _, _, _, h1, _ => by simp at h1
   | 0, [a], _, _, _, _, _, h2 => by simp at h2
   | i + 1, [], _, _, _, _, h1, _ => by simp at h1
@@ -186,18 +186,61 @@ theorem trim_refines : ∀ (fuel : Nat) {h h' : Hist K}, Coherent h → trim fue
 
 /-! ## the in-place shortcut -/
 
-/-- The centre stored by `_trim_in_place` is the reference centroid of (neighbour, new value) — and of
+/-- The centre computed by `_trim_in_place` is the one `_trim` computes for (neighbour, new value) — and for
 (new value, neighbour): which side the neighbour is on does not matter. -/
 theorem inPlace_centre_eq (cv cf v c : K) :
-    Gen.DistogramExpr.inPlaceCentre cv cf v c = centroid cv cf v c ∧
-    Gen.DistogramExpr.inPlaceCentre cv cf v c = centroid v c cv cf ∧
+    Gen.DistogramExpr.inPlaceCentre cv cf v c = Gen.DistogramExpr.trimCentre cv cf v c ∧
+    Gen.DistogramExpr.inPlaceCentre cv cf v c = Gen.DistogramExpr.trimCentre v c cv cf ∧
     Gen.DistogramExpr.inPlaceCount cv cf v c = Gen.DistogramExpr.trimCount cv cf v c ∧
     Gen.DistogramExpr.inPlaceCount cv cf v c = Gen.DistogramExpr.trimCount v c cv cf := by
-  unfold Gen.DistogramExpr.inPlaceCentre Gen.DistogramExpr.inPlaceCount centroid Gen.DistogramExpr.trimCentre
+  unfold Gen.DistogramExpr.inPlaceCentre Gen.DistogramExpr.inPlaceCount Gen.DistogramExpr.trimCentre
     Gen.DistogramExpr.trimCount
   refine ⟨rfl, ?_, rfl, ?_⟩
   · rw [add_comm (cv * cf), add_comm cf]
   · rw [add_comm]
+
+/-- **The centre `_trim_in_place` stores lies between the bin and the new value, whatever was computed**
+(`min(max(centre, low), high)` with `low, high = min/max(stored_value, new_value)`): no hypothesis on `c`. -/
+theorem inPlaceStored_within (c sv nv : K) :
+    min sv nv ≤ Gen.DistogramOps.inPlaceStored c sv nv ∧ Gen.DistogramOps.inPlaceStored c sv nv ≤ max sv nv := by
+  unfold Gen.DistogramOps.inPlaceStored
+  simp only [pyMin_eq, pyMax_eq]
+  rcases lt_trichotomy sv nv with h | h | h
+  · rw [min_eq_left (le_of_lt h), max_eq_right (le_of_lt h)]
+    split_ifs <;> constructor <;> linarith
+  · subst h
+    rw [min_self, max_self]
+    split_ifs <;> constructor <;> linarith
+  · rw [min_eq_right (le_of_lt h), max_eq_left (le_of_lt h)]
+    split_ifs <;> constructor <;> linarith
+
+/-- a computed centre that is between the bin and the new value is stored as it is -/
+theorem inPlaceStored_of_between {c sv nv : K} (h1 : min sv nv ≤ c) (h2 : c ≤ max sv nv) :
+    Gen.DistogramOps.inPlaceStored c sv nv = c := by
+  unfold Gen.DistogramOps.inPlaceStored
+  simp only [pyMin_eq, pyMax_eq]
+  rcases lt_trichotomy sv nv with h | h | h
+  · rw [min_eq_left (le_of_lt h)] at h1; rw [max_eq_right (le_of_lt h)] at h2
+    split_ifs <;> first | rfl | (apply le_antisymm <;> linarith) | (exfalso; linarith)
+  · subst h
+    rw [min_self] at h1; rw [max_self] at h2
+    split_ifs <;> first | rfl | (apply le_antisymm <;> linarith) | (exfalso; linarith)
+  · rw [min_eq_right (le_of_lt h)] at h1; rw [max_eq_left (le_of_lt h)] at h2
+    split_ifs <;> first | rfl | (apply le_antisymm <;> linarith) | (exfalso; linarith)
+
+/-- The centre stored by `_trim_in_place` is the reference centroid of (left neighbour, new value) … -/
+theorem inPlace_stored_left {cv cf v c : K} (h : cv < v) (h1 : 0 < cf) (h2 : 0 < c) :
+    Gen.DistogramOps.inPlaceStored (Gen.DistogramExpr.inPlaceCentre cv cf v c) cv v = centroid cv cf v c := by
+  rw [centroid_eq h h1 h2, (inPlace_centre_eq cv cf v c).1]
+  exact inPlaceStored_of_between (by rw [min_eq_left (le_of_lt h)]; exact le_of_lt (trimCentre_gt h h1 h2))
+    (by rw [max_eq_right (le_of_lt h)]; exact le_of_lt (trimCentre_lt h h1 h2))
+
+/-- … and of (new value, right neighbour). -/
+theorem inPlace_stored_right {cv cf v c : K} (h : v < cv) (h1 : 0 < cf) (h2 : 0 < c) :
+    Gen.DistogramOps.inPlaceStored (Gen.DistogramExpr.inPlaceCentre cv cf v c) cv v = centroid v c cv cf := by
+  rw [centroid_eq h h2 h1, (inPlace_centre_eq cv cf v c).2.1]
+  exact inPlaceStored_of_between (by rw [min_eq_right (le_of_lt h)]; exact le_of_lt (trimCentre_gt h h2 h1))
+    (by rw [max_eq_left (le_of_lt h)]; exact le_of_lt (trimCentre_lt h h2 h1))
 
 /-! ## insertion by position -/
 
@@ -401,7 +444,7 @@ theorem fbuilt_coherent {h : Hist K} (hb : FBuilt h) : Coherent h := by
     unfold Distogram.merge at hok
     exact (coherent_foldUpdate _ ih hok).1
   | add _ _ hok ih _ =>
-    unfold Distogram.add Distogram.merge at hok
+    rw [add_def] at hok; unfold Distogram.merge at hok
     obtain ⟨m, hm, hok⟩ := bind_eq_ok hok
     have cm := (coherent_foldUpdate _ ih hm).1
     split at hok
@@ -409,12 +452,13 @@ theorem fbuilt_coherent {h : Hist K} (hb : FBuilt h) : Coherent h := by
     · simp only [Except.ok.injEq] at hok; subst hok; exact cm
     · simp at hok
   | bulk pairs lo hi _ hok ih =>
-    unfold Distogram.bulk at hok
+    rw [bulk_def] at hok
     obtain ⟨m, hm, hok⟩ := bind_eq_ok hok
     have cm := (coherent_foldUpdate _ ih hm).1
     split at hok
     · simp only [Except.ok.injEq] at hok; subst hok; exact fun d hd => cm d hd
     · simp only [Except.ok.injEq] at hok; subst hok; exact fun d hd => cm d hd
+    · simp at hok
   | load _ hne _ => exact coherent_load _ _ _ hne
 
 end Distogram
